@@ -11,6 +11,10 @@ mod canonization;
 mod hctl_operators_eval;
 mod low_level_operations;
 
+/// Verification hook: exposes the (otherwise private) canonization entry points.
+#[cfg(hctl_verif)]
+pub use canonization::{get_canonical, get_canonical_and_renaming};
+
 /// Shorthand for mapping of free variables to (optional) labels of their domain.
 pub type VarDomainMap = BTreeMap<String, Option<String>>;
 
